@@ -480,6 +480,7 @@ class FakeSocket:
         self.send_default = None        # callable(data)->int|-errno, consulted when plan is empty
         self.recv_err = None
         self.send_blocked = False
+        self.on_sent = None
         self.linger0 = False
         self.sid = len(w.socks)
         self.kind = "sock"
@@ -593,6 +594,8 @@ class FakeSocket:
         chunk = bytes(data[:n])
         self.sent += chunk
         w.obs("send", self.sid, chunk)
+        if self.on_sent is not None:
+            self.on_sent(self, chunk)       # a reactive peer: may queue bytes for the node at once
         return n
 
     def close(self):
